@@ -11,8 +11,8 @@ mkdir -p tests; cp $d/demo_*.rs tests/
 demo=$(basename $(ls $d/demo_*.rs | head -1) .rs)
 git apply $d/patch.diff || { echo "$name: patch does not apply"; exit 3; }
 unit=$(cargo test --lib --offline 2>&1 | grep "test result" | head -1)
-with=$(cargo test --offline --test $demo 2>&1 | grep "test result\|error\[" | head -1)
+with=$(cargo test --offline $VM_CARGO_ARGS --test $demo 2>&1 | grep "test result\|error\[" | head -1)
 git checkout -- src build.rs 2>/dev/null
-without=$(cargo test --offline --test $demo 2>&1 | grep "test result\|error\[" | head -1)
+without=$(cargo test --offline $VM_CARGO_ARGS --test $demo 2>&1 | grep "test result\|error\[" | head -1)
 echo "$name | unit(with): $unit | demo(with): $with | demo(without): $without"
 cd /; git -C /repo worktree remove --force $wt
